@@ -90,14 +90,4 @@ def runChain : List PassId → Schemas → Outcome Schemas
     | .err e => .err e
     | .panic x => .panic x
 
-/-- is the outcome of the chain independent of Go's map iteration order?  (`false` when
-    `DisjunctionInferMapping` meets a disjunction with several candidate discriminators) -/
-def chainAmbiguous : List PassId → Schemas → Bool
-  | [], _ => false
-  | p :: ps, ss =>
-    (p == .disjunctionInferMapping && DisjunctionInferMapping.ambiguous ss) ||
-    (match p.run ss with
-     | .ok ss' => chainAmbiguous ps ss'
-     | _ => false)
-
 end Cog.Passes
